@@ -31,7 +31,7 @@ func c11Schema() *hx.Schema {
 	// a covariant return type and an extra argument on o
 	g1Args := append([]*hx.Arg{{Name: "w", Type: hx.Named("Int"), Default: &seven}}, gArgs()...)
 	return &hx.Schema{Types: []*hx.TypeDef{
-		{Kind: hx.KEnum, Name: "E0", Values: []*hx.EnumValue{{Name: "RED"}, {Name: "GREEN"}}},
+		{Kind: hx.KEnum, Name: "E0", Values: []*hx.EnumValue{{Name: "RED"}, {Name: "GREEN"}, {Name: "OLD", Dirs: []hx.DirUse{{Name: "deprecated"}}}}},
 		{Kind: hx.KInput, Name: "In1", Inputs: []*hx.Arg{{Name: "x", Type: hx.Named("Float")}, {Name: "y", Type: hx.Named("Boolean").NN()}, {Name: "d", Type: hx.Named("Boolean"), Default: &yes}}},
 		{Kind: hx.KInput, Name: "In0", Inputs: []*hx.Arg{
 			{Name: "i", Type: hx.Named("Int")}, {Name: "s", Type: hx.Named("String"), Default: &dflt}, {Name: "r", Type: hx.Named("Int").NN()},
@@ -44,7 +44,8 @@ func c11Schema() *hx.Schema {
 			{Name: "o", Type: hx.Named("T0"), Args: []*hx.Arg{kArg()}}, {Name: "n", Type: hx.Named("Int")}}},
 		{Kind: hx.KObject, Name: "T1", Interfaces: []string{"I0"}, Fields: []*hx.Field{
 			{Name: "f", Type: hx.Named("String"), Args: fArgs()}, {Name: "g", Type: hx.Named("String"), Args: g1Args},
-			{Name: "o", Type: hx.Named("T1"), Args: []*hx.Arg{kArg(), {Name: "tag", Type: hx.Named("String"), Default: &tag}}}, {Name: "n", Type: hx.Named("Int")}}},
+			{Name: "o", Type: hx.Named("T1"), Args: []*hx.Arg{kArg(), {Name: "tag", Type: hx.Named("String"), Default: &tag}}}, {Name: "n", Type: hx.Named("Int")},
+			{Name: "old", Type: hx.Named("Int"), Dirs: []hx.DirUse{{Name: "deprecated", Args: []hx.KV{{Key: "reason", V: hx.Str("gone")}}}}}}},
 		{Kind: hx.KUnion, Name: "U0", Members: []string{"T0", "T1"}},
 		{Kind: hx.KObject, Name: "Query", Fields: []*hx.Field{
 			{Name: "f", Type: hx.Named("String"), Args: fArgs()}, {Name: "g", Type: hx.Named("String"), Args: gArgs()},
@@ -411,9 +412,20 @@ func genCaseC11(t *rapid.T) *c11Case {
 			}
 			varDefs = strings.Join(keep, ", ")
 		}
-		defs = append(defs, "query "+name+"("+varDefs+") { "+g.sels("Query", 3, frags, name)+" "+entry+" { "+g.sels(sub, 2, frags, name+"t")+shared+" } }")
+		// the root may be asked about itself in the same operation, with variables deciding what is shown
+		intro := ""
+		if rapid.IntRange(0, 2).Draw(t, name+"introspects") == 0 {
+			intro = " " + rapid.SampledFrom([]string{
+				`ti: __type(name: "T1") { name @skip(if: $b) fields(includeDeprecated: $c) { name } }`,
+				`ts: __schema { types { kind @include(if: $c) name } queryType { name @skip(if: $b) } }`,
+				`te: __type(name: "E0") { enumValues(includeDeprecated: $c) { name @include(if: $c) } ...FIntro }`,
+				`ti: __type(name: "I0") { possibleTypes { name @skip(if: $b) } ...FIntro }`,
+			}).Draw(t, name+"intro")
+		}
+		defs = append(defs, "query "+name+"("+varDefs+") { "+g.sels("Query", 3, frags, name)+intro+" "+entry+" { "+g.sels(sub, 2, frags, name+"t")+shared+" } }")
 	}
 	defs = append(defs, fragDefs...)
+	defs = append(defs, "fragment FIntro on __Type { kind @skip(if: $b) fields(includeDeprecated: $c) { name isDeprecated } }")
 	if len(defs) > 1 {
 		defs = rapid.Permutation(defs).Draw(t, "defOrder")
 	}
